@@ -359,7 +359,10 @@ impl Message {
             }
             header.encode(data, &mut buf);
 
-            let _ = writer.write(&buf)?;
+            // a packet is one write: a writer that takes only part of it must not go unnoticed
+            if writer.write(&buf)? != buf.len() {
+                return Err(std::io::ErrorKind::WriteZero.into());
+            }
             writer.flush()?;
         }
         Ok(())
